@@ -23,6 +23,9 @@ func (E *Engine) execInstr(st *State, in ssa.Instruction) []*State {
 		} else if obj != nil && x.IsAddr {
 			if v, ok := st.regs[x.X]; ok && v.LV != nil && v.LV.Kind == lvLocal && len(v.LV.Path) == 0 {
 				st.env["&"+obj.Name()] = v
+			} else if ok && v.LV != nil && v.LV.VarCell && len(v.LV.Path) == 0 {
+				// a local captured by a closure (boxed): contracts name its content
+				st.env["&box:"+obj.Name()] = v
 			}
 		}
 		return nil
@@ -48,6 +51,10 @@ func (E *Engine) execInstr(st *State, in ssa.Instruction) []*State {
 		for _, a := range x.Call.Args {
 			d.args = append(d.args, E.val(st, a))
 		}
+		for _, a := range d.args {
+			E.escapeVal(st, a)
+		}
+		E.escapeVal(st, d.fn)
 		st.defers = append(st.defers, d)
 		return nil
 	case *ssa.RunDefers:
@@ -107,6 +114,8 @@ func (E *Engine) execInstr(st *State, in ssa.Instruction) []*State {
 			}
 			name := qsym("box:" + typeKey(x.X.Type()))
 			E.declare(name, "("+strings.Join(sorts, " ")+") Int")
+			// unboxing yields fresh names for the leaves: references inside are no longer tracked
+			E.escapeVal(st, v)
 			st.regs[x] = &Val{T: x.Type(), F: []*Val{intVal(intLit(int64(id))), intVal(sx(name, args...))}}
 		}
 		return nil
@@ -115,6 +124,9 @@ func (E *Engine) execInstr(st *State, in ssa.Instruction) []*State {
 		fv := &FnVal{Key: stripGenerics(fn.String()), Fn: fn}
 		for _, b := range x.Bindings {
 			fv.Bindings = append(fv.Bindings, E.val(st, b))
+		}
+		for _, b := range fv.Bindings {
+			E.escapeVal(st, b)
 		}
 		ref := E.freshConst("closure", SInt)
 		st.assume(sx(">", ref, "0"))
@@ -143,6 +155,9 @@ func (E *Engine) execInstr(st *State, in ssa.Instruction) []*State {
 		return E.doSend(st, x)
 	case *ssa.Slice:
 		st.regs[x] = E.slice(st, x)
+		return nil
+	case *ssa.SliceToArrayPointer:
+		st.regs[x] = E.sliceToArrayPtr(st, x)
 		return nil
 	case *ssa.Store:
 		addr := E.val(st, x.Addr)
@@ -175,6 +190,7 @@ func (E *Engine) doAlloc(st *State, x *ssa.Alloc) {
 		return
 	}
 	ref := E.newObject(st, "new:"+x.Comment)
+	E.privNew(st, ref, E.rootName(et)+"!")
 	lv := &LVal{Kind: lvHeap, Ref: ref, Root: et}
 	// a named local whose address escapes (captured by a closure): its own cell family
 	if strings.HasPrefix(E.rootName(et), "box<") && x.Comment != "" && !strings.Contains(x.Comment, "complit") && !strings.Contains(x.Comment, "varargs") && !strings.Contains(x.Comment, "makeslice") && !strings.HasPrefix(x.Comment, "new") {
@@ -186,6 +202,36 @@ func (E *Engine) doAlloc(st *State, x *ssa.Alloc) {
 		return
 	}
 	st.regs[x] = &Val{T: x.Type(), S: ref, Sort: SInt}
+}
+
+// sliceToArrayPtr models (*[N]T)(s): a run-time panic unless len(s) >= N; the array is
+// materialised as a fresh object holding a copy of the first N elements (N <= 16), so writes
+// through the pointer are not seen through the slice (noted as an assumption).
+func (E *Engine) sliceToArrayPtr(st *State, x *ssa.SliceToArrayPointer) *Val {
+	base := E.val(st, x.X)
+	at := deref(x.Type())
+	arr := at.Underlying().(*types.Array)
+	if arr.Len() > 16 {
+		panic(engineErr("slice to large array pointer"))
+	}
+	g := sx(">=", base.F[2].S, intLit(arr.Len()))
+	E.oblige(st, "bounds", E.site(x), g, "slice long enough for the array conversion", E.pos(x), nil)
+	st.assume(g)
+	sl := types.Unalias(x.X.Type()).Underlying().(*types.Slice)
+	ref := E.newObject(st, "s2a")
+	E.privNew(st, ref, E.rootName(at)+"!")
+	lv := &LVal{Kind: lvHeap, Ref: ref, Root: at}
+	v := E.zeroVal(at)
+	if v.F == nil {
+		panic(engineErr("slice to array pointer: array value without components"))
+	}
+	nv := &Val{T: v.T, F: make([]*Val, len(v.F))}
+	for i := range v.F {
+		nv.F[i] = E.load(st, st.heap, &LVal{Kind: lvElem, Ref: base.F[0].S, Idx: E.at(base.F[1].S, intLit(int64(i))), Root: sl.Elem()})
+	}
+	E.store(st, lv, nv)
+	E.note("slice-to-array-pointer conversion: modelled as a copy (aliasing with the slice not tracked)")
+	return &Val{T: x.Type(), S: ref, Sort: SInt}
 }
 
 // newObject allocates a fresh reference.
@@ -275,6 +321,9 @@ func (E *Engine) loadFacts(st *State, v *Val) []string {
 				} else if E.CS.PtrIfaces[namedKey(v.T)] {
 					out = append(out, or(eq(v.F[1].S, "0"), sx("select", st.alloc, v.F[1].S)))
 				}
+				if sh.Kind == "iface" && E.CS.NonNilIfaces[namedKey(v.T)] {
+					out = append(out, not(eq(v.F[0].S, "0")), not(eq(v.F[1].S, "0")))
+				}
 				return
 			}
 			for _, f := range v.F {
@@ -305,8 +354,37 @@ func (E *Engine) storeTo(st *State, in ssa.Instruction, addr, v *Val) {
 	}
 	E.lockCheck(st, in, lv, true)
 	E.trackWrite(st, in, lv, v)
+	if lv.Kind == lvHeap || lv.Kind == lvElem {
+		E.checkNonNilStored(st, in, v)
+	}
+	if lv.Kind != lvLocal {
+		// a reference written to memory may be read back by anyone who can reach that memory
+		E.escapeVal(st, v)
+	}
 	E.store(st, lv, v)
 	E.sharedWrite(st, in, lv)
+}
+
+// checkNonNilStored: a value of a `nonnil-stored` interface type written to memory is not nil.
+func (E *Engine) checkNonNilStored(st *State, in ssa.Instruction, v *Val) {
+	if v == nil || len(E.CS.NonNilIfaces) == 0 {
+		return
+	}
+	if v.F != nil && len(v.F) == 2 && E.CS.NonNilIfaces[namedKey(v.T)] {
+		if _, isIface := types.Unalias(v.T).Underlying().(*types.Interface); isIface {
+			E.oblige(st, "nonnil-stored", E.site(in), and(not(eq(v.F[0].S, "0")), not(eq(v.F[1].S, "0"))), "a "+shortTypeKey(v.T)+" written to memory is not nil", E.pos(in), nil)
+			return
+		}
+	}
+	if v.F != nil {
+		sh := E.shape(v.T)
+		if sh.Kind == "slice" || sh.Kind == "iface" {
+			return
+		}
+		for _, f := range v.F {
+			E.checkNonNilStored(st, in, f)
+		}
+	}
 }
 
 func (E *Engine) fieldAddr(st *State, x *ssa.FieldAddr) *Val {
@@ -441,6 +519,7 @@ func (E *Engine) slice(st *State, x *ssa.Slice) *Val {
 		lv := E.ptrLV(base)
 		arrv := E.load(st, st.heap, lv)
 		ref := E.newObject(st, "arr")
+		E.privNew(st, ref, elemsRoot(arr.Elem())+"!")
 		if arrv.F == nil {
 			panic(engineErr("slicing large array"))
 		}
@@ -462,6 +541,7 @@ func (E *Engine) makeSlice(st *State, x *ssa.MakeSlice) *Val {
 	E.oblige(st, "make-size", E.site(x), and(sx("<=", "0", ln), sx("<=", ln, cp)), "make: 0 <= len <= cap", E.pos(x), nil)
 	st.assume(g)
 	ref := E.newObject(st, "make")
+	E.privNew(st, ref, elemsRoot(types.Unalias(x.Type()).Underlying().(*types.Slice).Elem())+"!")
 	et := types.Unalias(x.Type()).Underlying().(*types.Slice).Elem()
 	E.zeroElems(st, ref, et)
 	return &Val{T: x.Type(), F: []*Val{intVal(ref), intVal("0"), intVal(ln), intVal(cp)}}
@@ -577,6 +657,7 @@ func (E *Engine) bytesToString(st *State, v *Val, et types.Type, T types.Type) *
 
 func (E *Engine) stringToBytes(st *State, v *Val, et types.Type, T types.Type) *Val {
 	ref := E.newObject(st, "bytes")
+	E.privNew(st, ref, elemsRoot(et)+"!")
 	comp := compName(elemsRoot(et), "")
 	a := E.heapArr(st.heap, comp, SInt, true)
 	inner := E.freshConst("barr", arrSort(SInt))
@@ -604,7 +685,10 @@ func (E *Engine) typeAssert(st *State, x *ssa.TypeAssert) []*State {
 	var res *Val
 	if _, isIface := types.Unalias(x.AssertedType).Underlying().(*types.Interface); isIface {
 		// interface-to-interface: succeeds iff dynamic type implements it — unknown in general
-		okc := E.freshConst("implements", SBool)
+		// (a fixed but unknown relation between dynamic type tags and interface types; the ledger
+		// may state it for a library result with implements(x, T))
+		E.declare("|implements|", "(Int Int) Bool")
+		okc := sx("|implements|", tag, intLit(int64(E.typeID(x.AssertedType))))
 		st.assume(implies(okc, not(eq(tag, "0"))))
 		ok = okc
 		res = retype(v, x.AssertedType)
